@@ -120,6 +120,14 @@ pub fn decode_strings(ctx: &Ctx, rng: &mut impl RngCore, nvalid: usize, nrand: u
     for v in [c.zeta.clone(), c.f.inv(&c.zeta).unwrap(), c.d.clone(), c.f.neg(&c.d), c.f.sub(&c.a, &c.d), c.f.inv(&b(2)).unwrap(), c.f.sqrt(&c.f.neg(&b(1))).unwrap()] {
         out.push((to_le(&c.f.abs(&v), 32), "field-zoo value"));
         out.push((to_le(&c.f.neg(&c.f.abs(&v)), 32), "field-zoo value"));
+        // small multiples and small shifts of the special values (k*sqrt(-1), k*zeta, v +- k ...)
+        for k in 2u64..=16 {
+            out.push((to_le(&c.f.abs(&c.f.mul(&b(k), &v)), 32), "field-zoo value"));
+            out.push((to_le(&c.f.abs(&c.f.add(&v, &b(k))), 32), "field-zoo value"));
+            if let Some(ki) = c.f.inv(&b(k)) {
+                out.push((to_le(&c.f.abs(&c.f.mul(&ki, &v)), 32), "field-zoo value"));
+            }
+        }
     }
     // aliases s + q of *valid* encodings s that a folded word comparison confuses with s (the construction
     // yields many aliases; those whose s is a valid encoding and that keep the top three bits clear are kept)
